@@ -670,6 +670,146 @@ theorem bad_timestamp_error (H : Bytes → Bytes) (c : CanonReq) (ap : AuthParam
   unfold authenticatorOf
   rw [h]
 
+/-! ### Nothing before, nothing after (C16 `matchIso_no_padding`) -/
+
+theorem c16_takeDigits_nondigit (n : Nat) (c : UInt8) (s : Bytes) (hc : isDigit c = false) :
+    takeDigits (n + 1) (c :: s) = none := by
+  rw [takeDigits_cons, hc]
+  rfl
+
+theorem c16_takeDigits2_digits (a c : UInt8) (s : Bytes) (ha : isDigit a = true)
+    (hc : isDigit c = true) :
+    takeDigits 2 (a :: c :: s) = some (digitVal a * 10 ^ 1 + (digitVal c * 10 ^ 0 + 0), s) := by
+  rw [takeDigits_cons, takeDigits_cons, ha, hc]
+  rfl
+
+theorem c16_takeDigits2_second_nondigit (a c : UInt8) (s : Bytes) (hc : isDigit c = false) :
+    takeDigits 2 (a :: c :: s) = none := by
+  rw [takeDigits_cons, c16_takeDigits_nondigit 0 c s hc]
+  split <;> rfl
+
+theorem c16_takeDigits4_digits (a b c d : UInt8) (s : Bytes) (ha : isDigit a = true)
+    (hb : isDigit b = true) (hc : isDigit c = true) (hd : isDigit d = true) :
+    ∃ v, takeDigits 4 (a :: b :: c :: d :: s) = some (v, s) := by
+  rw [takeDigits_cons, takeDigits_cons, takeDigits_cons, takeDigits_cons, ha, hb, hc, hd]
+  exact ⟨_, rfl⟩
+
+theorem c16_skipOpt_digit (c x : UInt8) (s : Bytes) (hc : isDigit c = false)
+    (hx : isDigit x = true) : skipOpt c (x :: s) = x :: s := by
+  have : x ≠ c := by
+    rintro rfl
+    rw [hx] at hc
+    cases hc
+  simp only [skipOpt, if_neg this]
+
+theorem c16_expect_ne (c x : UInt8) (s : Bytes) (h : x ≠ c) : expect c (x :: s) = none := by
+  simp only [expect, if_neg h]
+
+/-- The scanner on a text with one more leading digit than the grammar has: every field is read
+one byte early, and the day field is followed by a digit where `T` must stand — or a `-` is met
+inside a two-digit field. -/
+theorem c16_matchIso_shifted (b y1 y2 y3 y4 m1 m2 d1 d2 : UInt8) (dash1 dash2 : Bool) (rest : Bytes)
+    (hb : isDigit b = true) (h1 : isDigit y1 = true) (h2 : isDigit y2 = true)
+    (h3 : isDigit y3 = true) (h4 : isDigit y4 = true) (hm1 : isDigit m1 = true)
+    (hm2 : isDigit m2 = true) (hd1 : isDigit d1 = true) (hd2 : isDigit d2 = true) :
+    matchIso (b :: y1 :: y2 :: y3 :: y4 :: (optSep dash1 0x2D ++ (m1 :: m2 :: (optSep dash2 0x2D ++
+      (d1 :: d2 :: 0x54 :: rest))))) = none := by
+  have hdash : isDigit 0x2D = false := by decide
+  obtain ⟨v, hv⟩ := c16_takeDigits4_digits b y1 y2 y3
+    (y4 :: (optSep dash1 0x2D ++ (m1 :: m2 :: (optSep dash2 0x2D ++ (d1 :: d2 :: 0x54 :: rest)))))
+    hb h1 h2 h3
+  rw [matchIso_eq, hv]
+  simp only []
+  rw [c16_skipOpt_digit 0x2D y4 _ hdash h4]
+  cases dash1 with
+  | true =>
+    simp only [optSep, if_true, List.cons_append, List.nil_append]
+    rw [c16_takeDigits2_second_nondigit y4 0x2D _ hdash]
+  | false =>
+    simp only [optSep, Bool.false_eq_true, if_false, List.nil_append]
+    rw [c16_takeDigits2_digits y4 m1 _ h4 hm1]
+    simp only []
+    split
+    · rfl
+    rw [c16_skipOpt_digit 0x2D m2 _ hdash hm2]
+    cases dash2 with
+    | true =>
+      simp only [if_true, List.cons_append, List.nil_append]
+      rw [c16_takeDigits2_second_nondigit m2 0x2D _ hdash]
+    | false =>
+      simp only [Bool.false_eq_true, if_false, List.nil_append]
+      rw [c16_takeDigits2_digits m2 d1 _ hm2 hd1]
+      simp only []
+      split
+      · rfl
+      rw [c16_expect_ne 0x54 d2 _ (digit_not_sep d2 hd2).2.2.2.2.2.2]
+
+theorem c16_matchIso_prepend (t : IsoText) (b : UInt8) : matchIso (b :: t.render) = none := by
+  cases hb : isDigit b with
+  | false =>
+    rw [matchIso_eq, c16_takeDigits_nondigit 3 b _ hb]
+  | true =>
+    rw [render_eq, natPad4_eq, natPad2_eq t.month, natPad2_eq t.day]
+    simp only [List.cons_append, List.nil_append]
+    exact c16_matchIso_shifted b _ _ _ _ _ _ _ _ _ _ _ hb (isDigit_dB _) (isDigit_dB _)
+      (isDigit_dB _) (isDigit_dB _) (isDigit_dB _) (isDigit_dB _) (isDigit_dB _) (isDigit_dB _)
+
+theorem c16_parseZone_append (zt : ZoneText) (h : zoneWf zt) (b : UInt8) :
+    parseZone (zt.render ++ [b]) = none := by
+  cases zt with
+  | z =>
+    by_cases hs : (0x5A : UInt8) = 0x2B ∨ (0x5A : UInt8) = 0x2D
+    · rcases hs with hs | hs <;> exact absurd hs (by decide)
+    · simp only [ZoneText.render, List.cons_append, List.nil_append]
+      unfold parseZone
+      split
+      · rename_i heq
+        simp only [List.cons.injEq] at heq
+        exact absurd heq.2 (by simp)
+      · rename_i sg' rest' heq
+        simp only [List.cons.injEq] at heq
+        obtain ⟨rfl, rfl⟩ := heq
+        rw [if_neg hs]
+      · rfl
+  | offset neg hh mm colon =>
+    obtain ⟨h1, h2⟩ := h
+    rw [zone_render_eq, List.cons_append, parseZone_sign _ _ (by cases neg <;> simp)]
+    rw [List.append_assoc, List.append_assoc, takeDigits2_render hh _ (by omega)]
+    have := takeDigits2_skip_render 0x3A (by decide) colon mm [b] (by omega)
+    simp only [ZONE_HOUR_MAX, h1, if_true, this]
+    rw [if_neg (by simp)]
+
+theorem c16_matchIso_append (t : IsoText) (h : t.wf) (b : UInt8) :
+    matchIso (t.render ++ [b]) = none := by
+  have hfr := wf_frac t h
+  have hz := wf_zone t h
+  obtain ⟨hy, hm1, hm2, hd1, hd2, hh, hmi, hs, _, _⟩ := h
+  obtain ⟨x, xs, hx, hx'⟩ := zone_render_head t.zone
+  rw [matchIso_eq, render_eq]
+  simp only [List.append_assoc, List.cons_append]
+  rw [takeDigits4_render _ _ hy]
+  simp only []
+  rw [takeDigits2_skip_render 0x2D (by decide) _ _ _ (by omega)]
+  simp only []
+  rw [if_neg (by omega)]
+  rw [takeDigits2_skip_render 0x2D (by decide) _ _ _ (by omega)]
+  simp only []
+  rw [if_neg (by omega)]
+  simp only [expect, if_true]
+  rw [takeDigits2_render _ _ (by omega)]
+  simp only []
+  rw [if_neg (by omega)]
+  rw [takeDigits2_skip_render 0x3A (by decide) _ _ _ (by omega)]
+  simp only []
+  rw [if_neg (by omega)]
+  rw [takeDigits2_skip_render 0x3A (by decide) _ _ _ (by omega)]
+  simp only []
+  rw [if_neg (by omega)]
+  have hx2 : t.zone.render ++ [b] = x :: (xs ++ [b]) := by rw [hx]; rfl
+  rw [hx2, fracPart_render _ _ _ hx' hfr]
+  simp only []
+  rw [← hx2, c16_parseZone_append _ hz]
+
 end SigV4
 
 #print axioms SigV4.matchIso_render
